@@ -24,6 +24,9 @@ def explore(ctx, art):
     # datagram session whose reader returns (and completes the done signal) only 50 ms after Close(): a pending operation
     # must return on Close(), not on the completion of the shutdown
     lines += ["case udp %s slowrun %s" % (o, c) for o in OPS for c in ("close", "cancel")]
+    # the connection's own handler blocks and the peer floods until the receive queue is full: the socket reader is parked in
+    # its hand-over to the queue when Close() comes (udp: session whose Run loop delivers the datagrams, as the real ones do)
+    lines += ["case %s flood qfull close" % t for t in ("udp", "tcp")]
     # "during send": the stream peer has stopped reading, the frame write is blocked in the transport (real time)
     lines += ["case tcp %s stalled %s" % (o, c) for o in OPS for c in CAUSES]
     # server side (real sockets, real time): a blocked DiscoveryRequest; Stop() with 0/1/3 connections whose handlers block
